@@ -365,7 +365,7 @@ def check(ctx):
             if m is None or in_axes is None or in_axes[0] != "tuple":
                 bad.append("unrecognised vmap of the sampling function")
             else:
-                ps = [p for p in m.params() if p != "self"]
+                ps = [p for p in m.pos_params() if p != "self"]
                 for p, ax in zip(ps, in_axes[1]):
                     if ax == c(None) and p not in ("epoch",):
                         bad.append(f"parameter {p} is broadcast over chains")
